@@ -8,6 +8,7 @@ import (
 	"sync/atomic"
 
 	"github.com/creachadair/jrpc2"
+	"github.com/creachadair/jrpc2/channel"
 
 	"verif/harness/sched"
 	"verif/harness/vchan"
@@ -66,6 +67,9 @@ type ServerOpts struct {
 	Validator        func([]byte) error
 	RPCLog           jrpc2.RPCLogger
 	HoldSend         chan struct{} // see vchan.End.HoldSend (server's end)
+	// ChannelByValue hands the server its channel as a non-comparable struct value
+	// (vchan.ByValue) instead of a pointer.
+	ChannelByValue bool
 }
 
 // ServerRig is a real jrpc2.Server on one end of a vchan pair, a raw scripted
@@ -79,6 +83,8 @@ type ServerRig struct {
 	Srv  *jrpc2.Server
 	Peer *vchan.End // the harness's end ("cli")
 	End  *vchan.End // the server's end ("srv")
+
+	byValue bool
 
 	omu sync.Mutex
 	out [][]byte
@@ -112,9 +118,18 @@ func NewServerRig(c *vt.Ctx, ctrl *sched.Controller, o ServerOpts) *ServerRig {
 		Concurrency: o.Concurrency, AllowPush: o.AllowPush, DisableBuiltin: o.DisableBuiltin,
 		NewContext: o.BaseContext, RPCLog: o.RPCLog,
 	})
-	r.Srv.Start(r.End)
+	r.byValue = o.ChannelByValue
+	r.Srv.Start(r.Chan())
 	c.Attach(func() any { return r.Log.Dump() })
 	return r
+}
+
+// Chan returns the server's end in the form it is handed to Server.Start.
+func (r *ServerRig) Chan() channel.Channel {
+	if r.byValue {
+		return vchan.ByValue{End: r.End}
+	}
+	return r.End
 }
 
 // Send delivers one raw record to the server.
